@@ -176,7 +176,9 @@ func (eval Evaluator) stepdiff(op0, op1 *rlwe.Ciphertext) (stepdiff *rlwe.Cipher
 	}
 
 	// Extremum gate: op0 * step + op1 * (1 - step) = step * diff + op1
-	level := utils.Min(diff.Level(), step.Level())
+	// Level at which the product step * diff is rescaled: the scale
+	// matching below costs diff one rescaling before the product.
+	level := utils.Min(diff.Level()-params.LevelsConsumedPerRescaling(), step.Level())
 
 	ratio := rlwe.NewScale(1)
 	for i := 0; i < params.LevelsConsumedPerRescaling(); i++ {
